@@ -86,7 +86,8 @@ def gen_config(rng: Prng) -> dict:
         r2 = r1
     elif taper == "band":
         # radii that differ only in their last bits (0.1 + 0.2 against 0.3), or by less than the library's 1e-6 band
-        r2 = rng.choice([r1 + 1e-7, r1 - 1e-7, r1 - 5e-7, r1 - 9e-7, r1 + 5e-8, math.nextafter(r1, math.inf),
+        r2 = rng.choice([r1 + 1e-7, r1 - 1e-7, r1 - 5e-7, r1 - 9e-7, r1 + 5e-8, r1 - 1.2e-6, r1 - 2e-6, r1 - 2e-6, r1 - 5e-6,
+                         math.nextafter(r1, math.inf),
                          math.nextafter(r1, 0.0), r1 * (1 + 2.0 ** -51), r1 * (1 - 2.0 ** -50)])
     elif taper == "larger":
         r2 = r1 * rng.choice([1.001, 1.5, 3.0, 10.0, rng.uniform(1.01, 5)])
@@ -218,7 +219,16 @@ def generate(rng: Prng, tier: str) -> dict:
     hist = rng.stream("history")
     cfg = gen_int_config(w) if hist.chance(0.12) else gen_config(w)
     cfg["shared_order"] = hist.choice(["far_first", "near_first"])
-    if not cfg.get("ints") and hist.chance(0.08) and min(cfg["h"], cfg["r1"], cfg["r2"], cfg["rb"]) >= 0.05:
+    if not cfg.get("ints") and cfg["taper"] == "band" and hist.chance(0.5):
+        # an almost-cylindrical frustum some ten thousand units from the origin: whether the generatrix is found to
+        # meet the sphere is then decided by rounding noise and by the random helper vector
+        cfg["offset"] = hist.choice([[20000.0, -14000.0, 6000.0], [-9000.0, 12000.0, 3000.5], [15000.25, 15000.5, -15000.75]])
+        cfg["r1"], cfg["r2"] = cfg["r1"] * 10, cfg["r1"] * 10 - (cfg["r1"] - cfg["r2"])
+        cfg["rb"] = cfg["rb"] * 10
+        cfg["d"] = cfg["d"] * 10
+        cfg["h"] = cfg["h"] * 10
+        cfg["far"] = True
+    elif not cfg.get("ints") and hist.chance(0.08) and min(cfg["h"], cfg["r1"], cfg["r2"], cfg["rb"]) >= 0.05:
         cfg["offset"] = far_offset(hist)
         cfg["far"] = True
     return {"prop": PROP, "cfg": cfg, "schedules": scheds, "followups": gen_followups(hist, cfg),
